@@ -163,6 +163,40 @@ def _mk(e):
     return SInt(e) if z3.is_int(e) else SReal(e)
 
 
+# ---- optional rounding-error model (standard model of floating point: fl(a op b) = (a op b)(1 + e), |e| <= u).
+# When ROUNDING is set, every real-valued +,-,*,/ result is multiplied by (1 + e_k) with a fresh e_k bounded by u.
+# This over-approximates IEEE-754 double arithmetic (u = 2^-53) in real arithmetic.
+ROUNDING = None
+
+
+class rounding_model:
+    def __init__(self, u=2.0 ** -53):
+        self.u = u
+
+    def __enter__(self):
+        global ROUNDING
+        self.old = ROUNDING
+        ROUNDING = self.u
+
+    def __exit__(self, *a):
+        global ROUNDING
+        ROUNDING = self.old
+
+
+def _rnd(e):
+    """result of a float operation under the rounding-error model"""
+    if ROUNDING is None or z3.is_int(e):
+        return _mk(e)
+    es = z3.simplify(e)
+    if z3.is_rational_value(es) or z3.is_int_value(es):
+        return _mk(e)
+    eng = E.cur()
+    err = eng.fresh("rnd")
+    u = z3.RealVal(str(Fraction(ROUNDING)))
+    eng.add_side(z3.And(err >= -u, err <= u))
+    return SReal(e * (1 + err))
+
+
 def _nonfinite_binop(a, b, op):
     """`a` symbolic finite, `b` concrete nan/inf (or swapped, flagged by op name)."""
     raise NotImplementedError
@@ -184,7 +218,9 @@ class SReal:
     def __add__(self, o):
         if self._nf(o):
             return float(o)
-        return _mk(self.e + lift(o))
+        if isinstance(o, (int, float)) and not isinstance(o, bool) and o == 0:
+            return self
+        return _rnd(self.e + lift(o))
 
     __radd__ = __add__
 
@@ -192,13 +228,13 @@ class SReal:
     def __sub__(self, o):
         if self._nf(o):
             return -float(o)
-        return _mk(self.e - lift(o))
+        return _rnd(self.e - lift(o))
 
     @_g
     def __rsub__(self, o):
         if self._nf(o):
             return float(o)
-        return _mk(lift(o) - self.e)
+        return _rnd(lift(o) - self.e)
 
     @_g
     def __mul__(self, o):
@@ -208,7 +244,9 @@ class SReal:
             if E.cur().branch(self.e == 0):
                 return NAN
             return float(o) if E.cur().branch(self.e > 0) else -float(o)
-        return _mk(self.e * lift(o))
+        if isinstance(o, (int, float)) and not isinstance(o, bool) and o in (1, -1, 0):
+            return _mk(self.e * lift(o))  # exact in floating point
+        return _rnd(self.e * lift(o))
 
     __rmul__ = __mul__
 
@@ -217,17 +255,17 @@ class SReal:
         den_s = z3.simplify(den)
         if z3.is_int_value(den_s):
             if den_s.as_long() != 0:
-                return SReal(to_real(num) / to_real(den_s))
+                return _rnd(to_real(num) / to_real(den_s))
         elif z3.is_rational_value(den_s):
             if den_s.numerator_as_long() != 0:
-                return SReal(to_real(num) / den_s)
+                return _rnd(to_real(num) / den_s)
         if E.cur().branch(den == 0):
             if SReal.div_by_zero == "python":
                 raise ZeroDivisionError("float division by zero")
             if E.cur().branch(num == 0):
                 return NAN
             return INF if E.cur().branch(num > 0) else -INF
-        return SReal(to_real(num) / to_real(den))
+        return _rnd(to_real(num) / to_real(den))
 
     @_g
     def __truediv__(self, o):
